@@ -24,7 +24,9 @@ CONFIG = {
     "exhaustive": {"quick": False, "thorough": False},
     "explanation": "theorems: for every genesis, every accepted block list and every commit/reload schedule the totals of every round equal "
                    "the class-wise sums over that round's accounts (unbounded induction over blocks and over the accounts of a delta); the "
-                   "runs compare the real ledger with these sums and with the model on generated histories",
+                   "single AddAccount / DelAccount / ApplyRewards / All calls: the wrapped model meets the closed-form overflow-tracking spec for all uint64 "
+                   "inputs (C12_add_del_meet_spec, C12_rewards_meet_spec, C12_all_meets_spec); the runs compare the real ledger with these sums, "
+                   "the closed forms and the model on generated inputs",
     "assumptions": [
         "a StateDelta lists every modified address once (ledgercore.AccountDeltas deduplicates by address) and genesis addresses are distinct (Go map)",
         "the reward unit does not change along a history (RewardUnit is 1e6 in every released consensus version)",
